@@ -251,7 +251,9 @@ def step (st : DSt) (toks : List String) : DSt × String :=
         match (recallGo (natD a) p.vocab p.struct 0 s.mem.sigs).2 with
         | some _ =>
           if t.isAnergic then "p:recall-blocked-anergic"
-          else if (check t.profile p).isEmpty then "p:recall-blocked-inside" else "p:recalled"
+          else if (check t.profile p).isEmpty then "p:recall-blocked-inside"
+          else if decide (3 ≤ (check t.profile p).length) || canaryLow p then "p:recalled p:recalled-escalated"
+          else "p:recalled"
         | none => "p:tcell"
     let stored := if s'.mem.sigs.length > s.mem.sigs.length then " p:stored"
       else if s'.clock = s.clock + 2 then " p:stored-pruned" else ""
